@@ -109,7 +109,7 @@ MODULE_CLASS_SPELLINGS = {
 PURE_FUNCS = {'bytearray', 'bytes', 'len', 'int', 'str', 'bool', 'range', 'zip', 'sum', 'min', 'max', 'tuple', 'list',
               'isinstance', 'hexlify', 'memoryview', 'pack', 'unpack', 'reduce', 'chr', 'type', 'float', 'sorted',
               'dict', 'enumerate', 'reversed', 'repr'}
-PURE_DOTTED = {'time.time', 'time.sleep', 'os.strerror', 'struct.pack', 'struct.unpack', 'binascii.hexlify',
+PURE_DOTTED = {'time.time', 'math.ceil', 'math.floor', 'os.strerror', 'struct.pack', 'struct.unpack', 'binascii.hexlify',
                'log.debug', 'log.info', 'log.error', 'log.warning', 'log.log', 'log.exception',
                'self.log.debug', 'self.log.info', 'self.log.error', 'self.log.warning', 'self.log.log',
                'operator.xor'}
@@ -127,7 +127,7 @@ PRIM_DOTTED = {
 }
 # class-level tables (dicts / byte strings) read through self
 SELF_DATA_ATTRS = {'ERR', 'CMD', 'REG', 'REGBYNAME', 'SOF', 'ACK'}
-MODULE_NAMES = {'nfc', 'time', 'os', 'errno', 'log', 'logging', 'struct', 'socket', 'select', 'operator', 'binascii',
+MODULE_NAMES = {'nfc', 'math', 'time', 'os', 'errno', 'log', 'logging', 'struct', 'socket', 'select', 'operator', 'binascii',
                 'device', 'sys'}
 
 
@@ -256,6 +256,8 @@ class World(object):
 TOPSEQ = ('seq', 0, None)
 INT = ('int',)
 FRAMEOBJ = ('frameobj',)
+OPTNUM = ('optnum',)     # None or a number: the timeout argument of the listen side (documented default None)
+NONE = ('none',)         # known to be None
 
 
 def seqlen(d):
@@ -292,6 +294,8 @@ def join(a, b):
         return b
     if b is None:
         return a
+    if a[0] in ('optnum', 'none') or b[0] in ('optnum', 'none'):
+        return OPTNUM
     if a[0] == 'frameobj' or b[0] == 'frameobj':
         return TOPSEQ
     la, lb = seqlen(a), seqlen(b)
@@ -396,6 +400,21 @@ class Translator(object):
         rec[2] = not self.may_normal(skel) and not self.may_return(skel)
         return rec
 
+    def no_listen_mode(self):
+        """every listen_tta/ttb/ttf/dep of the driver ends in `raise nfc.clf.UnsupportedTargetError` without any return"""
+        for name in ('listen_tta', 'listen_ttb', 'listen_ttf', 'listen_dep'):
+            r = self.w.method(self.devkey, name)
+            if r is None or r[0] == ('device', 'Device'):
+                return False
+            body = r[1].body
+            if any(isinstance(n, ast.Return) for n in ast.walk(r[1])):
+                return False
+            last = body[-1]
+            if not (isinstance(last, ast.Raise) and last.exc is not None and
+                    dotted(last.exc.func if isinstance(last.exc, ast.Call) else last.exc) == 'nfc.clf.UnsupportedTargetError'):
+                return False
+        return True
+
     def method_rec(self, selfkey, defkey, node, argdescs=None):
         return self.analyse('%s.%s.%s' % (defkey[0], defkey[1], node.name), defkey[0], selfkey, defkey, node, argdescs)
 
@@ -451,7 +470,8 @@ class Translator(object):
         if len(ex) != 1:
             raise SkelError('ContactlessFrontend.exchange not found')
         key = ('__init__', 'ContactlessFrontend')
-        self.analyse('Frontend.exchange', '__init__', key, key, ex[0])
+        # exchange(send_data, timeout): the listen side documents timeout=None (no time limit)
+        self.analyse('Frontend.exchange', '__init__', key, key, ex[0], {'timeout': OPTNUM})
         return self.funcs
 
     # ---- exception class resolution
@@ -712,12 +732,40 @@ class Translator(object):
             out = []
             for env in envs:
                 d = env.get(test.id)
+                if d is not None and d[0] in ('optnum', 'none'):
+                    if truth and d[0] == 'none':
+                        continue                       # None is never true
+                    e2 = dict(env)
+                    if truth:
+                        e2.pop(test.id)                # a number other than zero
+                    out.append(e2)
+                    continue
                 if d is None or d[0] not in ('seq', 'cseq', 'tuple'):
                     out.append(env)
                     continue
                 r = self.set_len(env, test.id, '>=' if truth else '==', 1 if truth else 0)
                 if r is not None:
                     out.append(r)
+            return out
+        if t is ast.Compare and len(test.ops) == 1 and isinstance(test.ops[0], (ast.Is, ast.IsNot)) \
+                and isinstance(test.left, ast.Name) and isinstance(test.comparators[0], ast.Constant) \
+                and test.comparators[0].value is None:
+            is_none = isinstance(test.ops[0], ast.Is) == truth
+            out = []
+            for env in envs:
+                d = env.get(test.left.id)
+                if d is None or d[0] not in ('optnum', 'none'):
+                    if not (is_none and d is None and False):
+                        out.append(env)
+                    continue
+                e2 = dict(env)
+                if is_none:
+                    e2[test.left.id] = NONE
+                else:
+                    if d[0] == 'none':
+                        continue
+                    e2.pop(test.left.id)
+                out.append(e2)
             return out
         if t is ast.Compare and len(test.ops) == 1 and type(test.ops[0]) in OPS:
             op = OPS[type(test.ops[0])]
@@ -785,10 +833,97 @@ class Translator(object):
             self.unproven.append(msg)
         return ('Prim', 'implicit %s@%s' % (what, where), list(classes))
 
+    # ---- numbers: the timeout argument, time.sleep, math.log
+    def maybe_none(self, ctx, e, envs):
+        for env in envs:
+            d = self.desc(ctx, e, env)
+            if d is not None and d[0] in ('optnum', 'none'):
+                return True
+        return False
+
+    def binop_site(self, ctx, e, envs):
+        if isinstance(e.op, ast.Mod) and isinstance(e.left, ast.Constant) and isinstance(e.left.value, (str, bytes)):
+            # "..." % args : only numeric conversions object to None
+            import re as _re
+            fmt = e.left.value if isinstance(e.left.value, str) else e.left.value.decode('latin-1')
+            convs = [m.group(1) for m in _re.finditer(r'%[#0\- +]*(?:\*|\d+)?(?:\.(?:\*|\d+))?[hlL]?([a-zA-Z%])', fmt) if m.group(1) != '%']
+            args = list(e.right.elts) if isinstance(e.right, ast.Tuple) else [e.right]
+            bad = len(convs) != len(args) and any(self.maybe_none(ctx, a, envs) for a in args)
+            for c, a in zip(convs, args):
+                if c in 'diouxXeEfFgGc' and self.maybe_none(ctx, a, envs):
+                    bad = True
+            if bad:
+                return self.site(ctx, e, 'numeric formatting of a value that may be None', ['TypeError'], False)
+            return SKIP
+        if self.maybe_none(ctx, e.left, envs) or self.maybe_none(ctx, e.right, envs):
+            return self.site(ctx, e, 'arithmetic on a value that may be None', ['TypeError'], False)
+        return SKIP
+
+    def format_site(self, ctx, e, envs):
+        """'...{:.3f}...'.format(args): a format specification applied to None raises TypeError"""
+        import string as _string
+        recv = e.func.value
+        some_none = any(self.maybe_none(ctx, a, envs) for a in e.args) or any(self.maybe_none(ctx, k.value, envs) for k in e.keywords)
+        if not some_none:
+            return SKIP
+        if not (isinstance(recv, ast.Constant) and isinstance(recv.value, str)):
+            return self.site(ctx, e, 'format() of a value that may be None with an unknown format', ['TypeError'], False)
+        auto = 0
+        for _lit, field, spec, _conv in _string.Formatter().parse(recv.value):
+            if field is None:
+                continue
+            name = field.split('.')[0].split('[')[0]
+            if name == '':
+                idx, auto = auto, auto + 1
+            elif name.isdigit():
+                idx = int(name)
+            else:
+                kw = [k.value for k in e.keywords if k.arg == name]
+                if kw and spec and self.maybe_none(ctx, kw[0], envs):
+                    return self.site(ctx, e, 'format specification applied to a value that may be None', ['TypeError'], False)
+                continue
+            if any(isinstance(a, ast.Starred) for a in e.args):
+                if spec:
+                    return self.site(ctx, e, 'format specification applied to a value that may be None', ['TypeError'], False)
+                continue
+            if idx < len(e.args) and spec and self.maybe_none(ctx, e.args[idx], envs):
+                return self.site(ctx, e, 'format specification applied to a value that may be None', ['TypeError'], False)
+        return SKIP
+
+    def nonneg(self, ctx, e, env, strict=False):
+        """e is provably >= 0 (strict: > 0)"""
+        if isinstance(e, ast.Constant) and isinstance(e.value, (int, float)) and not isinstance(e.value, bool):
+            return e.value > 0 if strict else e.value >= 0
+        if isinstance(e, ast.Call) and dotted(e.func) == 'max' and e.args and not e.keywords:
+            return any(self.nonneg(ctx, a, env, strict) for a in e.args)
+        if isinstance(e, ast.Call) and dotted(e.func) == 'min' and e.args and not e.keywords:
+            return all(self.nonneg(ctx, a, env, strict) for a in e.args)
+        if isinstance(e, ast.Call) and dotted(e.func) == 'abs' and not strict:
+            return True
+        if isinstance(e, ast.BinOp) and isinstance(e.op, (ast.Add, ast.Mult, ast.Div)):
+            return self.nonneg(ctx, e.left, env, strict) and self.nonneg(ctx, e.right, env, strict)
+        if isinstance(e, ast.IfExp):
+            return self.nonneg(ctx, e.body, env, strict) and self.nonneg(ctx, e.orelse, env, strict)
+        return False
+
+    def number_call_site(self, ctx, e, d, envs):
+        """time.sleep / math.log ... / int, float, round, abs, min, max on a value that may be None"""
+        sk = SKIP
+        if any(self.maybe_none(ctx, a, envs) for a in e.args):
+            sk = self.site(ctx, e, '%s() of a value that may be None' % d, ['TypeError'], False)
+        if d == 'time.sleep' and e.args:
+            ok = all(self.nonneg(ctx, e.args[0], env) for env in envs) if envs else True
+            sk = seq(sk, self.site(ctx, e, 'time.sleep of a length that may be negative', ['ValueError'], ok))
+        if d in ('math.log', 'math.log2', 'math.log10', 'math.sqrt') and e.args:
+            ok = all(self.nonneg(ctx, e.args[0], env, strict=(d != 'math.sqrt')) for env in envs) if envs else True
+            sk = seq(sk, self.site(ctx, e, '%s of a value that may be out of its domain' % d, ['ValueError'], ok))
+        return sk
+
     def subscript_site(self, ctx, e, envs):
         if not envs or isinstance(e.slice, ast.Slice) or not isinstance(e.ctx, ast.Load):
             return SKIP
         ds = [self.desc(ctx, e.value, env) for env in envs]
+        ds = [None if (d is not None and d[0] in ('optnum', 'none')) else d for d in ds]
         if all(d is None for d in ds):
             return SKIP
         ok, classes = True, ['IndexError']
@@ -861,11 +996,20 @@ class Translator(object):
         if t is ast.Slice:
             return seq(self.eff(ctx, e.lower, envs), self.eff(ctx, e.upper, envs), self.eff(ctx, e.step, envs))
         if t is ast.BinOp:
-            return seq(self.eff(ctx, e.left, envs), self.eff(ctx, e.right, envs))
+            return seq(self.eff(ctx, e.left, envs), self.eff(ctx, e.right, envs), self.binop_site(ctx, e, envs))
         if t is ast.UnaryOp:
-            return self.eff(ctx, e.operand, envs)
+            sk = self.eff(ctx, e.operand, envs)
+            if isinstance(e.op, (ast.USub, ast.UAdd, ast.Invert)) and self.maybe_none(ctx, e.operand, envs):
+                sk = seq(sk, self.site(ctx, e, 'arithmetic on a value that may be None', ['TypeError'], False))
+            return sk
         if t is ast.Compare:
-            return seq(self.eff(ctx, e.left, envs), *[self.eff(ctx, c, envs) for c in e.comparators])
+            sk = seq(self.eff(ctx, e.left, envs), *[self.eff(ctx, c, envs) for c in e.comparators])
+            operands = [e.left] + list(e.comparators)
+            for i, op in enumerate(e.ops):
+                if isinstance(op, (ast.Lt, ast.LtE, ast.Gt, ast.GtE)) and \
+                        (self.maybe_none(ctx, operands[i], envs) or self.maybe_none(ctx, operands[i + 1], envs)):
+                    sk = seq(sk, self.site(ctx, e, 'ordering comparison with a value that may be None', ['TypeError'], False))
+            return sk
         if t is ast.BoolOp:
             conj = isinstance(e.op, ast.And)
             parts, cur = [], envs
@@ -921,6 +1065,8 @@ class Translator(object):
             out, first = None, True
             for env in envs:
                 d = self.desc(ctx, x, env)
+                if d is not None and d[0] in ('optnum', 'none'):
+                    return OPTNUM
                 out = d if first else (join(out, d) if (out is not None and d is not None) else None)
                 first = False
             return out
@@ -975,6 +1121,8 @@ class Translator(object):
                     if ('*', rd) in PURE_DECODE:
                         return seq(recv, args)
                     return seq(recv, args, ('Prim', 'bytes.decode@' + where, ['UnicodeDecodeError']))
+                if f.attr == 'format':
+                    return seq(recv, args, self.format_site(ctx, e, envs))
                 if f.attr in PURE_METHODS:
                     return seq(recv, args)
             raise SkelError(where + ': call through an expression that is not understood')
@@ -987,13 +1135,30 @@ class Translator(object):
                 r = self.w.method(self.devkey, m)
                 if r is None:
                     raise SkelError(where + ': device method %s not found' % m)
-                c = ('Call', self.method_rec(self.devkey, r[0], r[1])[0])
+                descs, _nv = self.arg_descs(ctx, e, r[1], envs)
+                if m == 'send_rsp_recv_cmd' and self.no_listen_mode():
+                    # no LocalTarget can exist on this driver: every listen_xxx() raises UnsupportedTargetError
+                    descs = dict((k, v) for k, v in descs.items() if v is None or v[0] not in ('optnum', 'none'))
+                    note = '%s: all listen_* methods raise UnsupportedTargetError (checked), so send_rsp_recv_cmd is ' \
+                           'never entered with the listen-side default timeout=None' % self.driver
+                    if note not in self.assumptions:
+                        self.assumptions.append(note)
+                if m == 'send_cmd_recv_rsp':
+                    # documented: "timeout (float): the maximum number of seconds"; None is not a value of that argument
+                    descs = dict((k, v) for k, v in descs.items() if v is None or v[0] not in ('optnum', 'none'))
+                    note = 'send_cmd_recv_rsp is called with a number as timeout (documented type float), never None'
+                    if note not in self.assumptions:
+                        self.assumptions.append(note)
+                c = ('Call', self.method_rec(self.devkey, r[0], r[1], descs)[0])
                 out = c if out is None else choice(out, c)
             return seq(args, out)
         if d in PRIM_DOTTED:
             return seq(args, ('Prim', d + '@' + where, PRIM_DOTTED[d]))
         if d in ('unpack', 'struct.unpack'):
             return seq(args, self.unpack_site(ctx, e, envs))
+        if d in ('time.sleep', 'math.log', 'math.log2', 'math.log10', 'math.sqrt', 'int', 'float', 'round', 'abs', 'min', 'max',
+                 'math.ceil', 'math.floor'):
+            return seq(args, self.number_call_site(ctx, e, d, envs))
         if d in PURE_DOTTED or d in PURE_FUNCS:
             return args
         parts = d.split('.')
@@ -1041,6 +1206,8 @@ class Translator(object):
                 if (ctx.qual.split('#')[0], '.'.join(parts[:-1])) in PURE_DECODE:
                     return args
                 return seq(args, ('Prim', 'bytes.decode@' + where, ['UnicodeDecodeError']))
+            if m == 'format':
+                return seq(args, self.format_site(ctx, e, envs))
             if m in PURE_METHODS:
                 return args
         raise SkelError(where + ': call %s not classified' % d)
@@ -1123,6 +1290,23 @@ class Translator(object):
                 out.add(s.name)
         return out
 
+    def has_break(self, stmts):
+        """a break that leaves the loop whose body is stmts"""
+        for x in stmts:
+            if isinstance(x, ast.Break):
+                return True
+            if isinstance(x, (ast.For, ast.While, ast.FunctionDef)):
+                if self.has_break(x.orelse if not isinstance(x, ast.FunctionDef) else []):
+                    return True
+                continue
+            for field in ('body', 'orelse', 'finalbody'):
+                if self.has_break(getattr(x, field, []) or []):
+                    return True
+            for h in getattr(x, 'handlers', []) or []:
+                if self.has_break(h.body):
+                    return True
+        return False
+
     def widen(self, envs, names):
         out = []
         for env in envs:
@@ -1135,6 +1319,8 @@ class Translator(object):
                         e2[k] = ('seq', 0, None)
                     elif v is not None and v[0] == 'ios':
                         e2[k] = ('ios', 0, None)
+                    elif v is not None and v[0] in ('optnum', 'none'):
+                        e2[k] = OPTNUM
                     elif v is not None:
                         e2[k] = TOPSEQ
                 else:
@@ -1279,7 +1465,9 @@ class Translator(object):
             entry = self.widen(envs, names)
             tsk = self.eff(ctx, s.test, entry)
             b, eb = self.body2(ctx, s.body, self.refine(ctx, s.test, entry, True))
-            after = norm(entry + self.widen(eb, names))        # also reached through break
+            after = norm(entry + self.widen(eb, names))
+            if not self.has_break(s.body):
+                after = self.refine(ctx, s.test, after, False)     # left only when the test fails
             o, eo = self.body2(ctx, s.orelse, after)
             return seq(('Loop', seq(tsk, b)), tsk, o), (eo if s.orelse else after)
         if t is ast.For:
